@@ -6,11 +6,15 @@ os.makedirs('/verif/seeded', exist_ok=True)
 for suite in sorted(glob.glob(EV + '/suite/*.txt')):
     base = os.path.basename(suite)[:-4]
     prop, k = base.split('_')
+    batch = 1
+    pid = prop
+    if prop.endswith('b'):
+        pid, batch = prop[:-1], (3 if prop[:-1] in ('C02', 'C04', 'C05', 'C06', 'C08', 'C09', 'C12', 'C16', 'C20') else 2)
     txt = open(suite).read()
     confirmed = 'demo-on-mutant rc=1' in txt and 'demo-on-clean rc=0' in txt and '536 passed' in txt and 'failed' not in txt
     if not confirmed:
         print('NOT confirmed', base, txt.replace('\n', ' ')[:160]); continue
-    d = '/verif/seeded/%s-%s' % (prop, k)
+    d = '/verif/seeded/%s-%s%s' % (pid, 'b' if batch > 1 else '', k)
     os.makedirs(d, exist_ok=True)
     shutil.copy('%s/%s/mutant%s.diff' % (SRC, prop, k), d + '/patch.diff')
     shutil.copy('%s/%s/demo%s.py' % (SRC, prop, k), d + '/demo.py')
@@ -23,7 +27,8 @@ for suite in sorted(glob.glob(EV + '/suite/*.txt')):
             m = re.match(r'check (C\d+) rc=(\d+)\s+(\d+) violations; first:\s*(.*)', line)
             if m:
                 det[m.group(1)] = dict(exit=int(m.group(2)), violations=int(m.group(3)), first=m.group(4).strip()[:300])
-    meta = dict(property=prop, mutant=int(k), files=dict(patch='patch.diff', demonstration='demo.py', notes='notes.md'),
+    first = json.load(open('/verif/seeded/first_eval.json')) if os.path.exists('/verif/seeded/first_eval.json') else {}
+    meta = dict(property=pid, mutant=int(k), batch=batch, caught_by_the_checks_as_they_were_when_it_was_produced=first.get('%s_%s' % (prop, k)), files=dict(patch='patch.diff', demonstration='demo.py', notes='notes.md'),
                 needs_to_manifest=' '.join(notes.split('\n')[0:12])[:900],
                 confirmed=dict(how='scratch worktree of /repo HEAD (outside /repo and /verif): git apply patch.diff; PYTHONPATH=<worktree> /venv/bin/python demo.py; '
                                    'PYTHONPATH=/repo /venv/bin/python demo.py; full suite: /venv/bin/python -m pytest -q -p no:cacheprovider --timeout=900 --deselect tests/test_mamba.py',
